@@ -916,14 +916,25 @@ fn do_scheduled_action<M: AsRef<[Machine]>>(
             let reported = a.time + total_delay;
 
             // should we update client/server blocking?
+            // (with no blocking active the action always starts one, also for
+            // a zero duration, so that its BlockingBegin is followed by a
+            // BlockingEnd)
             if is_client {
-                if replace || block > client.blocking_until.unwrap_or(a.time) {
+                let update = match client.blocking_until {
+                    None => true,
+                    Some(current) => replace || block > current,
+                };
+                if update {
                     client.blocking_until = Some(block);
                     client.blocking_bypassable = bypass;
                 }
                 event_bypass = client.blocking_bypassable;
             } else {
-                if replace || block > server.blocking_until.unwrap_or(a.time) {
+                let update = match server.blocking_until {
+                    None => true,
+                    Some(current) => replace || block > current,
+                };
+                if update {
                     server.blocking_until = Some(block);
                     server.blocking_bypassable = bypass;
                 }
